@@ -64,8 +64,8 @@ theorem tie_String_attach (st : St) (tid d : Nat) (bytes : List Nat) :
 
 /-- the same for attached memory that is not terminated (`sLitU`, Nested.lean) -/
 theorem tie_String_attach_unterminated (st : St) (tid d : Nat) (bytes : List Nat) :
-    noClr (preN st tid (.sLitU d bytes)) = sem (strCtx st tid d d siteCtor (some (tagStrU, bytes))) String_attach := by
-  simp [preN, rel, noClr, sem, exec, isGuard, String_attach, strCtx, evalP, setP, emit]
+    noClr (pre st tid (.gNew d tagStrU true bytes 0)) = sem (strCtx st tid d d siteCtor (some (tagStrU, bytes))) String_attach := by
+  simp [pre, rel, noClr, sem, exec, isGuard, String_attach, strCtx, evalP, setP, emit]
 
 /-! ### Variant -/
 
@@ -146,8 +146,8 @@ theorem tie_String_detach (st s1 : St) (tid d : Nat) :
     ∧ (∀ x, pre st tid (.sPrintf d x) = sem (detCtx st tid d 1 (200 ≤ blkCap st d) false [] 0) String_detach
       ∧ post s1 tid (.sPrintf d x) = sem (detCtx s1 tid d 2 true (isWriting s1 tid) (decDigits x)
           (s1.capTab siteDetach 200)) String_detach)
-    ∧ (∀ nv, preN st tid (.sEditTo d nv) = sem (detCtx st tid d 1 true false [] 0) String_detach
-      ∧ postN s1 tid (.sEditTo d nv) = sem (detCtx s1 tid d 2 true (isWriting s1 tid) nv (s1.capTab siteDetach nv.length)) String_detach) := by
+    ∧ (∀ nv, pre st tid (.gEdit d false nv) = sem (detCtx st tid d 1 true false [] 0) String_detach
+      ∧ post s1 tid (.gEdit d false nv) = sem (detCtx s1 tid d 2 true (isWriting s1 tid) nv (s1.capTab siteDetach nv.length)) String_detach) := by
   refine ⟨fun bytes => ⟨?_, ?_⟩, fun n => ⟨?_, ?_⟩, fun n => ⟨?_, ?_⟩, fun x => ⟨?_, ?_⟩, fun nv => ⟨?_, ?_⟩⟩ <;>
     first
     | (rw [sem_detach_pre]; try rfl)
